@@ -357,10 +357,10 @@ class Check:
                 else:
                     violations.append((s, v))
         # fault sweep: one fault at every fault point of a few seeded base scenarios (cijsim/sweep.py)
-        if self.prop != "C09" and not os.environ.get("VERIF_NO_SWEEP"):
+        if not os.environ.get("VERIF_NO_SWEEP"):
             try:
                 self.sweep(pool, scs, agg, harness, violations, known_hits)
-                if self.prop in ("C12", "C14", "C15", "C19"):
+                if self.prop in ("C12", "C14", "C15", "C19", "C09"):
                     self.sweep_interleavings(pool, scs, agg, harness, violations, known_hits)
             except Exception as e:  # the sweep is part of the check: its failure is a harness error, never silence
                 import traceback
